@@ -80,7 +80,21 @@ func checkGatePrimitive(c *report.Ctx) {
 		c.Unresolved("ANCHOR", gateT+".cond", "gateImpl has no *sync.Cond field")
 		return
 	}
-	isState := func(name string) bool { return oneOf(name, stateFields...) }
+	// the latch mutex is the condition variable's L; when the constructor builds the condition on a mutex field of the
+	// latch itself (sync.NewCond(&g.mu)), that field is the same mutex under a second name
+	mutexField := ""
+	if ctor := c.P.Func("L/core", "NewGate"); ctor != nil {
+		for _, call := range an.CallsTo(ctor, "sync.NewCond") {
+			if args := call.Common().Args; len(args) == 1 {
+				if fa, ok := an.Strip(args[0], true).(*ssa.FieldAddr); ok {
+					if fr, ok := an.AsField(fa); ok && fr.Struct == gateT {
+						mutexField = fr.Field
+					}
+				}
+			}
+		}
+	}
+	isState := func(name string) bool { return name != mutexField && oneOf(name, stateFields...) }
 
 	// the Gate interface: every method must be implemented directly on *gateImpl
 	gateIface := c.P.Named("L/core", "Gate")
@@ -115,6 +129,9 @@ func checkGatePrimitive(c *report.Ctx) {
 		held := an.NewHeld(m)
 		ops := an.LockOps(m)
 		lockPath := m.Params[0].Name() + "." + condField + ".L"
+		if mutexField != "" && len(ops) > 0 && ops[0].Path == m.Params[0].Name()+"."+mutexField {
+			lockPath = ops[0].Path // the same mutex, addressed through its own field
+		}
 		okFirst := len(ops) >= 2 && ops[0].Acquire && !ops[0].Deferred && ops[0].Path == lockPath
 		nAcquire, foreign := 0, false
 		for _, o := range ops {
@@ -927,6 +944,10 @@ func checkDeadlineAwait(c *report.Ctx) {
 		for _, g := range an.WithAnon(f) {
 			for _, call := range an.CallsTo(g, "L/core.Gate.AwaitGateCondition") {
 				if fr, ok := an.AsField(call.Common().Value); ok && fr.Struct == T {
+					return fr.Field
+				}
+				// the gate may reach the waiter as a captured variable or an argument cell
+				if fr, ok := an.AsField(chanRoot(call.Common().Value)); ok && fr.Struct == T {
 					return fr.Field
 				}
 			}
